@@ -994,3 +994,36 @@ Proof.
   exists l. split; auto. destruct Hc as [Hc|[Hc _]]; auto. right.
   rewrite <- Hc. apply (bypass_bound N prog); auto. apply ireach_irun; exact R.
 Qed.
+
+(* ------------------------------------------------------------------ *)
+(* the originally pinned code (schedule() pushes on schedule_from): the
+   regression example.  Program: spawn 1,2,3; one scheduler-loop iteration;
+   k yields.  Fibers 3 and 2 alternate, fiber 1 is never handed out. *)
+Definition starve_prog (k : nat) : list op :=
+  [OSpawn 1; OSpawn 2; OSpawn 3; OIdle] ++ repeat OYield k.
+
+(* the fibers made RUNNING, in order, as seen in a harness trace
+   (events t loc kind val; a write of 1 to loc 200+f) *)
+Fixpoint running_writes (tr : list Z) : list Z :=
+  match tr with
+  | _ :: loc :: kind :: v :: r =>
+      if ((kind =? 19) && (v =? 1) && (200 <=? loc))%Z then (loc - 200)%Z :: running_writes r
+      else running_writes r
+  | _ => []
+  end.
+
+Lemma starvation_witness :
+  let prog := starve_prog 40 in
+  let sch := repeat 0 400 in
+  let x := irun (iinit false prog) sch in
+  let tr := run_all M (fst (init false [prog])) (snd (init false [prog])) [] 3000 in
+  base x = fst (run_sched M (fst (init false [prog])) sch) /\
+  pc (thr (base x) 0) = Fin /\
+  fstt (base x) 1 = 2%Z /\ queued (base x) 1 /\
+  ~ In 1 (hand x) /\ length (hand x) = 41 /\ byp x 1 = 41 /\
+  2 * (3 - 1) < byp x 1 /\
+  ~ In 1%Z (running_writes tr) /\ length (running_writes tr) = 41.
+Proof.
+  cbv zeta. split; [apply irun_erase|].
+  vm_compute. repeat split; try reflexivity; lia.
+Qed.
